@@ -774,3 +774,10 @@ MUTATIONS += [
     # the snapshot's root is taken from the parent snapshot whenever there is one
     dict(id="C01-root-tree-from-parent", prop="C01", file=TA13, old="        let id = self.backup_tree(&PathBuf::new(), &parent)?;\n        let stats = self.tree_packer.finalize()?;", new="        let id = self.backup_tree(&PathBuf::new(), &parent)?;\n        let id = parent_tree.unwrap_or(id);\n        let stats = self.tree_packer.finalize()?;"),
 ]
+
+MUTATIONS += [
+    # Actor::finalize reports success when the writer thread reported an error ("already logged")
+    dict(id="C03-actor-finalize-swallows-status", prop="C03", file=PKR13, old="        self.finish.recv().unwrap()\n", new="        _ = self.finish.recv().unwrap();\n        Ok(())\n"),
+    # BlobCopier::finalize ignores its packer's status
+    dict(id="C03-copier-finalize-default-stats", prop="C03", file=PKR13, old="    pub fn finalize(self) -> RusticResult<PackerStats> {\n        self.packer.finalize()\n    }", new="    pub fn finalize(self) -> RusticResult<PackerStats> {\n        match self.packer.finalize() {\n            Ok(stats) => Ok(stats),\n            Err(_) => Ok(PackerStats::default()),\n        }\n    }"),
+]
